@@ -153,3 +153,34 @@ def apply_edit(src, e, read_aux):
     if e.get('deasync'):
         return deasync(src)
     raise EncodeError(f"unknown edit {e}")
+
+
+def call_args(src, callee):
+    """Top-level argument texts of the single call `callee(...)` in src (source slice helper)."""
+    k = src.count(callee + '(')
+    if k != 1:
+        raise EncodeError(f"slice: call {callee}(: expected 1 occurrence, got {k}")
+    i = src.index(callee + '(') + len(callee) + 1
+    depth = 0
+    args = []
+    cur = i
+    j = i
+    while True:
+        c = src[j]
+        if c in '([{':
+            depth += 1
+        elif c in ')]}':
+            if depth == 0:
+                last = src[cur:j].strip()
+                if last:
+                    args.append(last)
+                break
+            depth -= 1
+        elif c == ',' and depth == 0:
+            args.append(src[cur:j].strip())
+            cur = j + 1
+        elif c == '|' and depth == 0:
+            # closure parameter list: skip to the closing '|'
+            j = src.index('|', j + 1)
+        j += 1
+    return args
